@@ -1,13 +1,17 @@
 //! Checks of the sync group: C19 C20 C21 C24.
+mod memstore;
+mod pipe;
 mod props;
+mod session;
+mod world;
 
 fn main() {
     let ctx = engine::Ctx::from_args();
     match ctx.id.as_str() {
-        // "C19" => props::c19::run(ctx),
-        // "C20" => props::c20::run(ctx),
-        // "C21" => props::c21::run(ctx),
-        // "C24" => props::c24::run(ctx),
+        "C19" => props::c19::run(ctx),
+        "C20" => props::c20::run(ctx),
+        "C21" => props::c21::run(ctx),
+        "C24" => props::c24::run(ctx),
         other => engine::harness_error(&format!("property {other} is not served by verif-sync")),
     }
 }
